@@ -75,6 +75,31 @@ OPS = [
     ("caused_by", r'"Caused by: "', '"Caused by:"'),
     ("at", r'"at "', '"at"'),
     ("arrow", r'b" -> "', 'b"->"'),
+    # second generation
+    ("and-left-true", r"if ([^{]+?) && ", "if true && "), ("and-right-true", r" && ([^{&|]+?) \{", " && true {"),
+    ("or-left-false", r"if ([^{]+?) \|\| ", "if false || "),
+    ("range-end-1", r"\[([^\[\]]*)\.\.([^\[\]=]+)\]", r"[\1..\2 - 1]"), ("range-start+1", r"\[([^\[\].][^\[\]]*)\.\.([^\[\]]*)\]", r"[\1 + 1..\2]"),
+    ("range-inclusive", r"\.\.=", ".."), ("range-exclusive", r"(\w)\.\.(\w)", r"\1..=\2"),
+    ("cmp-rev", r"(\w+)\.cmp\(&?(\w+)\)", r"\2.cmp(&\1)"),
+    ("unwrap_or", r"\.unwrap_or\(([^()]*)\)", r".unwrap_or(Default::default())"),
+    ("ok_or-none", r"\.filter\(", ".filter(|_| true).filter("),
+    ("then_with", r"\.then_with\(", ".then("),
+    ("some-arg", r"Some\((\w+)\)\s*=>", r"Some(\1) if false =>"),
+    ("get-1", r"\.get\((\w+)\)", r".get(\1 + 1)"),
+    ("char-dot", r"'\.'", "'$'"), ("char-dollar", r"'\$'", "'.'"), ("char-colon", r"':'", "';'"), ("char-paren", r"'\('", "'['"),
+    ("char-semi", r"';'", "':'"), ("char-L", r"'L'", "'l'"), ("char-bracket", r"'\['", "'('"), ("char-slash", r"'/'", "'.'"),
+    ("byte-colon", r"b':'", "b';'"), ("byte-nl", r"b'\\n'", "b'\\r'"), ("byte-cr", r"b'\\r'", "b'\\n'"), ("byte-hash", r"b'#'", "b'!'"),
+    ("byte-paren", r"b'\('", "b'['"), ("byte-dot", r"b'\.'", "b'$'"), ("byte-space", r"b' '", "b'_'"),
+    ("saturating_sub-plain", r"\.saturating_sub\(([^()]*)\)", r".wrapping_sub(\1)"),
+    ("ends_with-semicolon", r"\[';'\]", "[')']"),
+    ("is_ascii", r"is_ascii_digit", "is_ascii_alphanumeric"), ("is_numeric", r"is_numeric\(\)", "is_ascii_digit()"),
+    ("clone-default", r"(\w+)\.clone\(\)", r"Default::default()"),
+    ("sort-key", r"\.sort_by_key\(", ".sort_by_cached_key("),
+    ("extend-skip", r"\.extend\(", ".extend(std::iter::empty().chain("),
+    ("splitn3", r"splitn\(2,", "splitn(1,"), ("rsplitn", r"rsplitn\(2,", "splitn(2,"),
+    ("next-back", r"\.next_back\(\)", ".next()"),
+    ("trim-matches", r"\.trim_start\(\)", ".trim()"),
+    ("lines-keepends", r"\.lines\(\)", ".split_inclusive('\\n')"),
 ]
 DELETE_STMT = re.compile(r"^\s*(?:[\w.\[\]]+\.(?:clear|push|push_str|insert|extend|sort|sort_by|sort_by_key|dedup|remove|truncate|retain)\b.*;|[\w.\[\]]+\s*(?:=|\+=|-=)\s*[^=].*;)\s*$")
 
